@@ -114,6 +114,12 @@ class TraceDomain(Domain):
     def forget(self, flow, s, sym):
         pass
 
+    def at_loop_head(self, flow, s, hv, tag, info):
+        """Record that this path reached the loop, with the values the loop variables had on arrival."""
+        if info.get("entry"):
+            vals = tuple(sorted((name, s.env.get(vid) or name) for vid, name in (hv or {}).items()))
+            self._add(s, ("loop", tag, vals, "", flow.cur_func().name))
+
 
 def run_traces(model, func, on_region_end, **kw):
     dom = TraceDomain(model, func, on_region_end, **kw)
